@@ -419,6 +419,12 @@ def c10(res, tier, seed, replay):
         replay_run(res, replay)
         return
     design_check(res, "ShardMC", "ShardMC.cfg")
+    # the batch algorithm of the graph index with every distance-dependent choice left open
+    design_check(res, "Graph", "Graph.cfg" if tier == "quick" else "Graph.deep.cfg", timeout=3000, heap="12g")
+    expect_design_violation(res, "Graph", "Graph.neg.cfg", "BoundAlways", "back edges added up to the degree bound + 1")
+    expect_design_violation(res, "Graph", "Graph.reach.cfg", "AllReachable",
+                            "documented design observation: the structure alone does not keep every node reachable from the entry node "
+                            "(pruning may drop the only inbound edge); reachability is not part of C10")
     runs = []
     nseeds = 1 if tier == "quick" else 4
     for s in range(nseeds):
@@ -448,10 +454,44 @@ def c10(res, tier, seed, replay):
             return True
         return False
     binding_selftest(res, results, mut2, what="two live points given the same node id in the logged projection")
+
+    def mut3(e):
+        # a removal-only batch after which an untouched node lost an edge
+        if e["ev"] == "Graph" and e.get("hasprev") == 1 and e["ok"] == 1 and e["kind"] == "delete":
+            before = {n[0]: n[1] for n in e["prev"]}
+            now = {n[0] for n in e["nodes"]}
+            if set(before) - now:
+                for n in e["nodes"]:
+                    if n[0] != 1 and n[1] and sorted(n[1]) == sorted(before.get(n[0], [])) and set(n[1]) <= now:
+                        n[1] = n[1][1:]
+                        return True
+        return False
+    binding_selftest(res, results, mut3, what="an edge of an untouched node dropped over a removal-only batch (graph transition)")
+    kinds = {}
+    for r in results:
+        if not os.path.exists(r["trace"]):
+            continue
+        with open(r["trace"]) as f:
+            for line in f:
+                if '"ev":"Graph"' not in line:
+                    continue
+                e = json.loads(line)
+                if not e.get("hasprev"):
+                    continue
+                before = {n[0] for n in e["prev"]}
+                now = {n[0] for n in e["nodes"]}
+                upd = (set(e["touched"]) & before & now) if e["kind"] == "update" else set()
+                k = ("rejected" if not e["ok"] else "removal_only_exact" if (before - now) and not (now - before) and not upd else
+                     "single_insert_exact" if len(now - before) == 1 and not (before - now) and not upd and 1 in before else
+                     "no_change" if before == now and not upd else "mixed_bounds")
+                kinds[k] = kinds.get(k, 0) + 1
+    res.coverage["graph_transitions_by_rule"] = kinds
     res.coverage["rule"] = ("after every write batch (insert / update / delete mixes, vector removal and re-addition, id reuse, "
                             "batches up to 100 points, graphs up to 400 nodes, degree bound 32) the persisted graph, vector keys, "
                             "recorded maximum node id, node-id table, free list and counters are dumped through hook H1 and TLC "
-                            "evaluates GraphWF and ShardWF on every line")
+                            "evaluates GraphWF and ShardWF on every line, and judges the transition from the graph before the batch to the "
+                            "graph after it against Graph.tla's batch (rejected batch: identical; removal only and single insertion: exact; "
+                            "otherwise every edge must come from where the design can take it and nothing changes without a cause)")
     res.assumptions += ["degree bounds below 32 cannot be configured through validation and are not exercised"]
 
 
